@@ -1876,6 +1876,86 @@ func nelProbe06(r *Run) {
 	}
 }
 
+// ---------- the structured family: 3-layer behaviour chains over every source kind ----------
+// Every combination of (behaviour at layer 0, 1, 2) x (where the hash suffix is disabled: generatorOptions or the
+// generator's own options, at layer 0, 1 or 2, or nowhere) x ConfigMap/Secret, with env files, files with explicit
+// keys, a file keyed by its base name, binary content (re-declared with other bytes in layer 1), literals with quotes
+// and '=' in the value, immutable set through generatorOptions or local options at rotating layers, and rotating
+// namespace / prefix / suffix directives.
+func sysTrees06() []*layer06 {
+	var out []*layer06
+	idx := 0
+	for _, secret := range []bool{false, true} {
+		for _, b0 := range []string{"", "create"} {
+			for _, b1 := range []string{"merge", "replace", "create", ""} {
+				for _, b2 := range []string{"merge", "replace"} {
+					for _, dis := range []string{"none", "g0", "g1", "g2", "l0", "l1", "l2"} {
+						idx++
+						mk := func(layer int, beh string) gen06 {
+							g := gen06{Secret: secret, Name: "cfg", Behavior: beh, IntentKnown: true}
+							if secret && layer == 0 {
+								g.Type = "kubernetes.io/tls"
+							}
+							if dis == fmt.Sprintf("l%d", layer) {
+								g.HasOpts, g.DisableHash = true, true
+							}
+							if idx%4 == 1 && layer == 1 {
+								g.HasOpts, g.Immutable = true, true
+							}
+							return g
+						}
+						l0 := &layer06{}
+						g0 := mk(0, b0)
+						g0.Envs = []bstr{"base.env"}
+						g0.Files = []bstr{"blob=blob.bin", "sub/cfgfile.txt"}
+						l0.Files = []kv06{{"base.env", "\ufeffA=1\nB=two\n# comment\n\nEMPTY\n"}, {"blob.bin", "\xff\x00\x01"}, {"sub/cfgfile.txt", "line1\nline2\n"}}
+						g0.Intent = []kv06{{"A", "1"}, {"B", "two"}, {"EMPTY", ""}, {"blob", "\xff\x00\x01"}, {"cfgfile.txt", "line1\nline2\n"}}
+						l1 := &layer06{Bases: []*layer06{l0}}
+						g1 := mk(1, b1)
+						g1.Files = []bstr{"B=b.txt"}
+						g1.Literals = []bstr{"C=3"}
+						l1.Files = []kv06{{"b.txt", "b from file\n"}}
+						g1.Intent = []kv06{{"B", "b from file\n"}, {"C", "3"}}
+						if idx%2 == 0 {
+							g1.Files = append(g1.Files, "blob=blob2.bin")
+							l1.Files = append(l1.Files, kv06{"blob2.bin", "\xfe\x02"})
+							g1.Intent = append(g1.Intent, kv06{"blob", "\xfe\x02"})
+						}
+						l2 := &layer06{Bases: []*layer06{l1}}
+						g2 := mk(2, b2)
+						g2.Literals = []bstr{"A='quoted'", "D=x=y"}
+						g2.Envs = []bstr{"top.env"}
+						l2.Files = []kv06{{"top.env", " \tB=top\r\n"}}
+						g2.Intent = []kv06{{"A", "quoted"}, {"D", "x=y"}, {"B", "top"}}
+						for i, l := range []*layer06{l0, l1, l2} {
+							g := []gen06{g0, g1, g2}[i]
+							if secret {
+								l.SecGens = []gen06{g}
+							} else {
+								l.CmGens = []gen06{g}
+							}
+							if dis == fmt.Sprintf("g%d", i) {
+								l.HasGenOpts, l.GDisable = true, true
+							}
+							if idx%4 == 2 && i == 0 || idx%4 == 3 && i == 2 {
+								l.HasGenOpts, l.GImmutable = true, true
+							}
+						}
+						switch idx % 3 {
+						case 0:
+							l0.Prefix, l1.Ns, l2.Suffix = "p-", "ns1", "-s"
+						case 1:
+							l1.Prefix, l2.Ns = "q-", "ns2"
+						}
+						out = append(out, l2)
+					}
+				}
+			}
+		}
+	}
+	return out
+}
+
 func runC06(r *Run, rng *Rng, tier string) error {
 	nSha, nJSON, nGen, nBuild, nLaw := 60, 250, 350, 420, 500
 	if tier == "thorough" {
@@ -1886,7 +1966,7 @@ func runC06(r *Run, rng *Rng, tier string) error {
 		"invalid/truncated UTF-8) and random bytes; gen: one generator declaration (env/literal/file sources rendered from intended pairs over the adversarial key/value alphabet, " +
 		"raw malformed sources, non-UTF-8 file contents) through MakeConfigMap/MakeSecret + Hasher.Hash; build: chains of 1-3 kustomizations (14% a top layer over two bases) " +
 		"declaring 0-3 generators named cfg/app with behaviours create/merge/replace/unspecified/unknown, generatorOptions, namespace/namePrefix/nameSuffix/commonLabels/commonAnnotations, " +
-		"optionally a Deployment referring to the ConfigMap. non-trivial = a generated object came out; distinct by hash of the case term"
+		"optionally a Deployment referring to the ConfigMap (implementation-only cases); systematic: all 224 three-layer chains of (behaviour x behaviour x behaviour) x (hash disabled via generatorOptions / own options at layer 0/1/2 / nowhere) x ConfigMap/Secret with env files, explicit-key files, base-name files, binary content re-declared, quoted literals, immutable. non-trivial = a generated object came out; distinct by hash of the case term"
 	for _, c := range loadCorpus06() {
 		if c.Kind == "build" && !c.LawOnly {
 			demoteRefs06(c.Tree)
@@ -1894,6 +1974,31 @@ func runC06(r *Run, rng *Rng, tier string) error {
 		runOne06(r, rng.Fork(), c, !c.LawOnly)
 	}
 	nelProbe06(r)
+	for _, t := range sysTrees06() {
+		ch := chainOf06(t)
+		g := func(l *layer06) gen06 {
+			if len(l.SecGens) > 0 {
+				return l.SecGens[0]
+			}
+			return l.CmGens[0]
+		}
+		r.Count("systematic_behaviors", behaviorOf06(g(ch[0]).Behavior)+"/"+behaviorOf06(g(ch[1]).Behavior)+"/"+behaviorOf06(g(ch[2]).Behavior))
+		for i, l := range ch {
+			if l.HasGenOpts && l.GDisable {
+				r.Count("systematic_options", fmt.Sprintf("generatorOptions.disableNameSuffixHash@layer%d", i))
+			}
+			if l.HasGenOpts && l.GImmutable {
+				r.Count("systematic_options", fmt.Sprintf("generatorOptions.immutable@layer%d", i))
+			}
+			if g(l).HasOpts && g(l).DisableHash {
+				r.Count("systematic_options", fmt.Sprintf("options.disableNameSuffixHash@layer%d", i))
+			}
+			if g(l).HasOpts && g(l).Immutable {
+				r.Count("systematic_options", fmt.Sprintf("options.immutable@layer%d", i))
+			}
+		}
+		runOne06(r, rng.Fork(), case06{Kind: "build", Tree: t}, true)
+	}
 	for _, s := range []string{"", "abc", "abcdbcdecdefdefgefghfghighijhijkijkljklmklmnlmnomnopnopq"} {
 		runOne06(r, nil, case06{Kind: "sha", Input: bstr(s)}, true)
 	}
